@@ -18,6 +18,7 @@ import DateutilVerif.Proofs.RRuleDailyW
 import DateutilVerif.Proofs.RRuleMonthlyW
 import DateutilVerif.Proofs.RRuleMinutelyBH
 import DateutilVerif.Proofs.RRuleSecondlyBS
+import DateutilVerif.Proofs.RRuleMinutelyBHM
 
 namespace RRule
 open Cal
@@ -115,6 +116,13 @@ theorem iter_eq_spec_supported (a : Args) (r : Rule) (h : construct a = .ok r) (
     obtain ⟨hf, ⟨hi, hv, hz⟩, h1, h2, h3, h4, h5, h6⟩ := hs
     obtain ⟨l, hl, hne, _⟩ := someWith_elim h3
     exact iter_eq_spec_minutely_byhour ⟨hf, hi, hv, wArgOk_elim h1, h2, hz, ⟨l, hl, hne⟩, h4, h5, h6⟩ h n hr
+  | minutelyByhm =>
+    obtain ⟨hf, ⟨hi, hv, hz⟩, h1, h2, h3, h4, h5, h6⟩ := hs
+    have hm4 : ∃ l, a.byminute = some l := by
+      cases hb : a.byminute with
+      | none => exact absurd hb h4
+      | some l => exact ⟨l, rfl⟩
+    exact iter_eq_spec_minutely_bhm ⟨hf, hi, hv, wArgOk_elim h1, h2, hz, optNonempty_elim h3, hm4, h5, h6⟩ h n hr
   | secondly =>
     obtain ⟨hf, ⟨hi, hv, hz⟩, h1, h2, h3, h4, h5⟩ := hs
     exact iter_eq_spec_secondly ⟨hf, hi, hv, wArgOk_elim h1, h2, hz, h3, h4, h5⟩ h n hr
